@@ -107,12 +107,15 @@ type State struct {
 	dryDepth  int
 	loopDepth int
 	epoch     int // bumped by havocAll: heaps first touched later get fresh names
+	bank      *TermBank
 	sink      *State // shadow states forward assumptions to the real state
 	mute      bool   // do not record facts (terms with bound variables)
 }
 
 type recorder struct {
 	targets map[string]map[*Term]bool // heap -> obj terms
+	nonpos  map[string]map[*Term]bool // heap -> obj terms known to be nil/fresh (<= 0) when written
+	negonly map[string]bool           // heaps whose loop-variant targets are all nil/fresh objects
 	whole   map[string]bool
 	all     bool
 	phiBad  map[*ssa.Phi]bool // slice/pointer phis whose object changes around the loop
@@ -159,7 +162,7 @@ func (st *State) assumeDef(x *Exec, t *Term) {
 func (st *State) fork() *State {
 	n := &State{heaps: make(map[string]*Term, len(st.heaps)), dirty: make(map[string]bool, len(st.dirty)),
 		pc: append([]*Term(nil), st.pc...), pcset: make(map[*Term]bool, len(st.pcset)),
-		nextObj: st.nextObj, subs: st.subs, kinds: st.kinds, rec: st.rec, dry: st.dry, dryDepth: st.dryDepth, loopDepth: st.loopDepth, epoch: st.epoch}
+		nextObj: st.nextObj, subs: st.subs, kinds: st.kinds, rec: st.rec, bank: st.bank, dry: st.dry, dryDepth: st.dryDepth, loopDepth: st.loopDepth, epoch: st.epoch}
 	for k, v := range st.heaps {
 		n.heaps[k] = v
 	}
@@ -456,7 +459,7 @@ func (x *Exec) fail(format string, a ...interface{}) {
 func (x *Exec) newState() *State {
 	var ctr int64
 	return &State{heaps: map[string]*Term{}, dirty: map[string]bool{}, pcset: map[*Term]bool{}, nextObj: &ctr,
-		subs: map[subKey]int64{}, kinds: map[int64]string{}}
+		subs: map[subKey]int64{}, kinds: map[int64]string{}, bank: x.b}
 }
 
 func (x *Exec) pushFrame(st *State, fn *ssa.Function, args []Value, call ssa.CallInstruction, bindings []Value) *Frame {
@@ -627,6 +630,19 @@ func (x *Exec) enterBlock(st *State, b *ssa.BasicBlock) bool {
 	}
 	// loop entry
 	ctx := x.specCtx(st, fr)
+	if len(spec.Lets) > 0 {
+		// names bound to values at loop entry (constants of the loop)
+		nl := map[string]Value{}
+		for k, v := range fr.lets {
+			nl[k] = v
+		}
+		for _, l := range spec.Lets {
+			v := x.eval(ctx, l.E)
+			nl[l.Name] = v
+			ctx.names[l.Name] = v
+		}
+		fr.lets = nl
+	}
 	for i, inv := range spec.Invariants {
 		g := x.evalBool(ctx, inv)
 		x.check(st, fmt.Sprintf("loop %d:init%d", loop.Ord, i+1), "", nil, g, inv.String())
@@ -684,7 +700,24 @@ func (x *Exec) havocLoop(st *State, fr *Frame, loop *Loop, phis []*ssa.Phi, rec 
 		srt := x.heapSorts[h]
 		cur := st.heap(x, h, srt)
 		if rec.whole[h] {
-			st.setHeap(h, x.b.Fresh(h+"@loop", srt), nil)
+			nh := x.b.Fresh(h+"@loop", srt)
+			if rec.negonly[h] {
+				// only nil/fresh objects are written with loop-variant addresses: entry memory keeps its value
+				r := x.b.Var("r!lf", SInt)
+				es := arrElem(srt)
+				st.assumeDef(x, x.b.Forall([]*Term{r}, x.b.Implies(x.b.Lt(x.b.Int(0), r),
+					x.b.Eq(x.b.mk("select", es, "", nil, nh, r), x.b.mk("select", es, "", nil, cur, r)))))
+				// invariant targets (possibly entry objects) are havocked on top
+				var objs []*Term
+				for o := range rec.targets[h] {
+					objs = append(objs, o)
+				}
+				sort.Slice(objs, func(i, j int) bool { return objs[i].id < objs[j].id })
+				for _, o := range objs {
+					nh = x.b.Store(nh, o, x.b.Fresh(h+"@loopobj", arrElem(srt)))
+				}
+			}
+			st.setHeap(h, nh, nil)
 			continue
 		}
 		var objs []*Term
@@ -716,6 +749,26 @@ func (st *State) record(heap string, obj *Term) {
 		st.rec.targets[heap] = m
 	}
 	m[obj] = true
+	// is the object known (syntactically) to be nil or freshly allocated at this point?
+	np := obj.Op == "int" && obj.Val.Sign() <= 0
+	if !np && st.bank != nil {
+		b := st.bank
+		if le := b.Le(obj, b.Int(0)); le.IsTrue() || st.pcset[le] {
+			np = true
+		} else if lt := b.Lt(obj, b.Int(0)); lt.IsTrue() || st.pcset[lt] {
+			np = true
+		}
+	}
+	if st.rec.nonpos[heap] == nil {
+		st.rec.nonpos[heap] = map[*Term]bool{}
+	}
+	if np {
+		if _, seen := st.rec.nonpos[heap][obj]; !seen {
+			st.rec.nonpos[heap][obj] = true
+		}
+	} else {
+		st.rec.nonpos[heap][obj] = false
+	}
 }
 
 func (x *Exec) havocAll(st *State) {
